@@ -371,12 +371,33 @@ func runWindow(t vcore.Failer, c rxwindow.Case, minimise bool) {
 	vcore.Report(t, v, map[string]any{"window": c})
 }
 
+func runStale(t vcore.Failer, c rxwindow.StaleCase) {
+	v, skipped := rxwindow.RunStale(c)
+	vcore.E.Eval()
+	vcore.E.Class("stray_expiry_schedule")
+	if skipped != "" {
+		vcore.E.Exclude("schedule_slipped")
+		return
+	}
+	vcore.E.NonTrivial(vcore.JSON(c))
+	if v != nil && !vcore.IsKnown(v.Key) {
+		// the schedule is in real time: a violation counts when a second run fails the same way
+		v2, _ := rxwindow.RunStale(c)
+		if v2 == nil || v2.Key != v.Key {
+			vcore.E.Note("stray expiry: " + v.Key + " not confirmed by a second run: " + v.Msg)
+			return
+		}
+	}
+	vcore.Report(t, v, map[string]any{"stale": c})
+}
+
 func TestC06(t *testing.T) {
 	files, explicit := vcore.ReplayFiles()
 	for _, f := range files {
 		var w struct {
 			Case
-			Window *rxwindow.Case `json:"window"`
+			Window *rxwindow.Case      `json:"window"`
+			Stale  *rxwindow.StaleCase `json:"stale"`
 		}
 		if err := vcore.LoadReplayCase(f, &w); err != nil {
 			t.Fatalf("replay %s: %v", f, err)
@@ -384,6 +405,11 @@ func TestC06(t *testing.T) {
 		if w.Window != nil {
 			vcore.E.Class("replayed")
 			runWindow(t, *w.Window, false)
+			continue
+		}
+		if w.Stale != nil {
+			vcore.E.Class("replayed")
+			runStale(t, *w.Stale)
 			continue
 		}
 		c := w.Case
@@ -438,6 +464,11 @@ func TestC06(t *testing.T) {
 	// (b) real retention window (package rxwindow)
 	vcore.Check(t, vcore.N(30, 300), func(rt *rapid.T) {
 		runWindow(rt, rxwindow.Gen(rt), true)
+	})
+
+	// (c) a retention timer must not outlive its transaction (package rxwindow, real timers, about 2 s per case)
+	vcore.Check(t, vcore.N(3, 10), func(rt *rapid.T) {
+		runStale(rt, rxwindow.GenStale(rt))
 	})
 
 	// random part
